@@ -140,7 +140,19 @@ namespace occa {
                "(reserved: " << reserved << ", bytes: " << bytes << ")",
                reserved <= bytes);
 
-    if (size == bytes) return; /*Nothing to do*/
+    /*
+    Nothing to do, unless there are holes between the reservations:
+    reserve() relies on resize() packing them when no hole fits a request
+    */
+    if (size == bytes) {
+      udim_t packedEnd = 0;
+      for (modeMemory_t* m : reservations) {
+        const udim_t mhi = ((m->offset + m->size + alignment - 1)
+                            / alignment) * alignment;
+        packedEnd = std::max(packedEnd, mhi);
+      }
+      if (packedEnd == reserved) return;
+    }
 
     const udim_t alignedBytes = ((bytes + alignment - 1) / alignment) * alignment;
 
